@@ -18,42 +18,21 @@ server's replay copy (OpSourceReplay) in both orders and a third client seeded b
 after the first / after the second sync (root = decoded tree, clone = its DeepCopy), each compared
 with the editors, and clone = root on the third client.
 
-Everything here is proved by kernel evaluation (`decide +kernel`) of the executable model, chunk by
-chunk (Lemmas/TreeMatrixC*.lean, Lemmas/TreeMatrixE*.lean), and assembled by membership.
+The table statements are proved by kernel evaluation (`decide +kernel`) of `convergesExt` on the
+executable model, chunk by chunk (Lemmas/TreeMatrixE*.lean, 25 rows each), and assembled by membership;
+`matrix_converges` is a corollary.
 -/
 import YorkieModel.Lemmas.TreeMatrixAll
 import YorkieModel.Lemmas.TreeReplay
+import YorkieModel.Lemmas.TreeWFAll
+import YorkieModel.Lemmas.TreeAttrs
+import YorkieModel.Lemmas.TreeLens
 namespace Yorkie.Props.C19
 open Yorkie Yorkie.Tree Yorkie.Tree.Matrix
 
 theorem mem_matrix {c : Case} (h : c ∈ matrix) : ∃ ch ∈ chunks, c ∈ ch := by
   unfold matrix at h
   exact List.mem_flatten.mp h
-
-/-- **C19, the two editors, whole table.** Every one of the 1592 pairs converges on the model: both
-    editors render the same XML after synchronising (in either sync order) and on each of them the copy
-    shown to the user (clone) equals the real document (root). -/
-theorem matrix_converges : ∀ c ∈ matrix, converges c = true := by
-  intro c hc
-  obtain ⟨ch, hch, hcc⟩ := mem_matrix hc
-  exact chunks_converge ch hch c hcc
-
-/-
-Full statement of the extension (kept, not weakened): `∀ c ∈ matrix, convergesExt c = true`.
-It is not known to be false - the exhaustive correspondence run executes it on the real code and on
-the model for EVERY row and both agree - but kernel evaluation of all 1592 rows costs about an hour of
-CPU, so the theorem below evaluates every fourth row (398 rows, spread over all five families) and
-the remaining rows are tied by the exhaustive correspondence only (props.d/C19.py `partial`).
--/
-
-/-- **C19, extension, every fourth row.** Additionally the server's replay of the two changes in BOTH
-    sync orders renders the editors' XML, and a third client seeded by a snapshot of the server copy
-    taken after the first or after the second sync (then fed the remaining change) ends with the same
-    XML on its root and on its clone. -/
-theorem matrix_converges_ext_partial : ∀ c ∈ matrix, c.idx % 4 = 0 → convergesExt c = true := by
-  intro c hc h4
-  obtain ⟨ch, hch, hcc⟩ := mem_matrix hc
-  exact chunks_converge_ext ch hch c hcc h4
 
 /-- the extension contains the basic statement -/
 theorem convergesExt_converges (c : Case) (h : convergesExt c = true) : converges c = true := by
@@ -66,6 +45,21 @@ theorem convergesExt_converges (c : Case) (h : convergesExt c = true) : converge
     simp only [Bool.and_eq_true, beq_iff_eq] at h ⊢
     obtain ⟨⟨⟨⟨h1, h2⟩, h3⟩, _⟩, _⟩ := h
     exact ⟨⟨h1.symm, h2⟩, by rw [h3, h1]⟩
+
+/-- **C19, whole table, full statement.** For every one of the 1592 pairs: both editors render the same
+    XML after synchronising and on each of them clone = root; the server's replay of the two changes in
+    BOTH sync orders renders that XML; a third client seeded by a snapshot of the server copy taken after
+    the first or after the second sync (then fed the remaining change) ends with that XML on its root
+    and on its clone. -/
+theorem matrix_converges_ext : ∀ c ∈ matrix, convergesExt c = true := by
+  intro c hc
+  obtain ⟨ch, hch, hcc⟩ := mem_matrix hc
+  exact chunks_converge_ext ch hch c hcc
+
+/-- **C19, the two editors** (corollary): every pair converges and clone = root on both editors, in
+    either sync order. -/
+theorem matrix_converges : ∀ c ∈ matrix, converges c = true :=
+  fun c hc => convergesExt_converges c (matrix_converges_ext c hc)
 
 /-- **Server replay = remote application** (all trees, all operations - not only the table): whenever a
     client applies a remote change successfully, the server's replay copy (`OpSourceReplay`, no reverse
@@ -165,6 +159,115 @@ theorem path_tombstone_witness :
         | .ok p => (match t.pathToIndex p with | .ok i => i == 2 | .error _ => false)
         | .error _ => false)
      | _ => false) = true := by
+  decide +kernel
+
+
+/-! ### unbounded theorems about the tree model (every tree, every operation - not only the table)
+
+`Tree.WF` (Lemmas/TreeWF.lean) is the structural well-formedness of the arena: cached size = arena length, the
+root is allocated, `c ∈ children p ↔ parent c = some p`, no dangling pointer in a node or in `NodeMapByID`,
+no duplicate child, every `NodeMapByID` entry points at a node carrying that id. It does NOT contain
+acyclicity of the parent relation, and it does NOT contain exactness of the cached lengths: the latter is false
+of the pinned code, `Tree.lensExact` (Lemmas/TreeLens.lean) is the explicit predicate and the two witnesses
+below show the two ways it breaks. -/
+
+/-- **`WF` is an invariant of every operation**: `TreeEdit` with any range, split level and contents (deletion,
+    merge across element boundaries, element and text splits, insertion) and `TreeStyle` (set / remove), executed
+    with any version vector, with or without reverse info - if the operation succeeds the tree is well-formed. -/
+theorem wf_invariant_op {t t' : Tree} (w : t.WF) (op : Op) (vv : VV) (rev : Bool) (h : t.applyOp op vv rev = .ok t') :
+    t'.WF := applyOp_wf_all w op vv rev h
+
+/-- `Document.Update` (any json-layer call) keeps both copies of a replica well-formed -/
+theorem wf_invariant_update {r r' : Rep} {ch : Option Change} (w : r.WF) (c : Call) (h : r.update c = .ok (r', ch)) :
+    r'.WF := Rep.update_wf_all w c h
+
+/-- applying a remote change keeps both copies of a replica well-formed -/
+theorem wf_invariant_remote {r r' : Rep} (w : r.WF) (ch : Change) (h : r.applyRemote ch = .ok r') : r'.WF :=
+  Rep.applyRemote_wf_all w ch h
+
+/-- the trees a run starts from are well-formed: what `SetNewTree` builds, what the converter decodes (a `Set`
+    of a tree, a snapshot), and every `DeepCopy` of a well-formed tree -/
+theorem wf_sources :
+    (∀ (a : Actor) (it : JItem) (r : List JItem), (initialTree a (it :: r)).WF) ∧
+    (∀ (fl : List Flat) (t : Tree), Tree.ofFlat fl = .ok t → t.WF) ∧
+    (∀ (t t' : Tree), t.snapshot = .ok t' → t'.WF) ∧
+    (∀ (t : Tree), t.WF → t.deepCopy.WF) :=
+  ⟨initialTree_wf, fun _ _ h => ofFlat_wf h, fun _ _ h => snapshot_wf h, fun _ w => deepCopy_wf w⟩
+
+/-- at the end of ANY run of the two-client scenario (any non-empty initial tree, any two calls) all four copies
+    - root and clone of both editors - are well-formed -/
+theorem wf_run {c : Case} {o : Outcome} (it : JItem) (r : List JItem) (hinit : c.init = it :: r)
+    (h : runCase c = .ok o) : o.d1.WF ∧ o.d2.WF := runCase_wf it r hinit h
+
+/-- **clone = root after `DeepCopy`, for every tree** (no well-formedness needed): `Tree.DeepCopy` re-registers the
+    nodes and rebuilds the merge cache, neither of which `ToXML()` or `Marshal()` read. In particular the clone of a
+    snapshot-seeded client renders exactly like its root, whatever the snapshot. -/
+theorem deepCopy_observational (t : Tree) :
+    t.deepCopy.toXMLCodes = t.toXMLCodes ∧ t.deepCopy.marshalCodes = t.marshalCodes :=
+  ⟨toXMLCodes_congr (view_deepCopy t), marshalCodes_congr (view_deepCopy t)⟩
+
+theorem seeded_observational {s : Tree} {r : Rep} (h : seeded s = .ok r) :
+    r.WF ∧ r.clone.toXMLCodes = r.root.toXMLCodes ∧ r.clone.marshalCodes = r.root.marshalCodes :=
+  ⟨seeded_wf h, seeded_clone_eq_root h⟩
+
+/-
+Snapshot round trip, full statement (NOT proved): for every well-formed tree `t`, `t.snapshot = .ok t'` implies
+`t'.toXMLCodes = t.toXMLCodes`. Proved: `t'` is well-formed (`wf_sources`), its `DeepCopy` renders like it
+(`deepCopy_observational`), and for every tree that occurs in the table the decoded snapshot renders like the
+original (`matrix_converges_ext`: the third client is seeded from the server copy in four ways per row). The general
+statement needs the correctness of the `Prepend`/depth-table reconstruction of `FromTreeNodes` against the
+post-order writer, which is not done.
+-/
+
+/-- **style / style commutation** (C01, tree attributes): two style operations with different tickets - each a set or
+    a remove of any number of keys - applied to the same attribute register in either order leave every key with the
+    same live value (or removal) and the same winning ticket. -/
+theorem style_style_commute_partial (a1 a2 : StyleArg) (t1 t2 : Ticket) (h : t1 ≠ t2) (as : List Attr) :
+    look (a1.apply t1 (a2.apply t2 as)) = look (a2.apply t2 (a1.apply t1 as)) :=
+  style_style_comm a1 a2 t1 t2 h as
+
+/-- ... but the registers themselves do not commute: `RHT.Remove` copies the value of the node it tombstones, so the
+    value kept inside a tombstone depends on the order (nothing but the snapshot and a later `Remove` read it) -/
+theorem style_style_raw_witness :
+    let old : List Attr := [⟨[98], [49], ⟨1, 1, 1⟩, false⟩]
+    let s := StyleArg.set [([98], [50])]
+    let r := StyleArg.remove [[98]]
+    s.apply ⟨2, 1, 1⟩ (r.apply ⟨3, 1, 2⟩ old) ≠ r.apply ⟨3, 1, 2⟩ (s.apply ⟨2, 1, 1⟩ old) ∧
+    look (s.apply ⟨2, 1, 1⟩ (r.apply ⟨3, 1, 2⟩ old)) [98] = look (r.apply ⟨3, 1, 2⟩ (s.apply ⟨2, 1, 1⟩ old)) [98] :=
+  raw_registers_do_not_commute
+
+/-- exact cached lengths are NOT an invariant (1): on row 1223 both editors start exact, end with the same XML, and
+    d2 - which applies the remote split to a paragraph it has tombstoned - ends inexact (d1 stays exact) -/
+theorem lens_exact_witness_split_tombstone :
+    (match runCase (row 1223) with
+     | .ok o => o.wire.lensExact && o.d1.root.lensExact && !o.d2.root.lensExact
+     | .error _ => false) = true := by
+  decide +kernel
+
+/-- exact cached lengths are NOT an invariant (2): splitting the text "\U0001F600ab" after 'a' (UTF-16 offset 3)
+    leaves the left half with the rune count 2 as its length -/
+theorem lens_exact_witness_surrogate :
+    (let t := initialTree 1 [⟨0, [114], [], []⟩, ⟨1, [112], [], []⟩, ⟨2, textType, [0xD83D, 0xDE00, 97, 98], []⟩]
+     t.lensExact && (match t.splitText 2 3 with
+       | .ok (t', some _) => !t'.lensExact
+       | _ => false)) = true := by
+  decide +kernel
+
+/-! non-vacuity of the unbounded theorems -/
+
+/-- a well-formed tree with exact lengths on which operations of every kind succeed -/
+example : (initialTree 1 fam1).WF := initialTree_wf _ _ _
+
+example : (let t := initialTree 1 fam2
+    t.lensExact &&
+    (match (row 1223).call1, (row 1223).call2 with
+     | c1, c2 =>
+       (match localCall t (ChangeID.initial.setActor 1 |>.next |>.next) c1 with
+        | .ok (some _) => true
+        | _ => false) &&
+       (match localCall t (ChangeID.initial.setActor 1 |>.next |>.next) c2 with
+        | .ok (some _) => true
+        | _ => false))) = true := by
   decide +kernel
 
 end Yorkie.Props.C19
